@@ -79,7 +79,7 @@ def build_families(scratch, config, util):
                 vals = [(18, [flag, "022"]), (7, [flag, "7"]), (0, [flag, "0"])]
             else:
                 vals = [(0, cli1(0)), (3, cli1(3)), (7, cli1(7))]
-            bad = [(-1, [flag, "-1"] if flag else None), ("abc", [flag, "abc"] if flag else None)]
+            bad = [(-1, [flag, "-1"] if flag else None), ("abc", [flag, "abc"] if flag else None), (("import", "os", "umask"), None)]
         elif vname == "validate_bool":
             if s.action == "store_true":
                 vals = [(True, [flag]), (False, None)]
@@ -93,7 +93,7 @@ def build_families(scratch, config, util):
                 vals = [("debug", cli1("debug")), ("error", cli1("error")), ("", cli1(""))]
             else:
                 vals = [("alpha", cli1("alpha")), (" beta ", cli1(" beta ")), ("", cli1(""))]
-            bad = [(123, None), (["x"], None)]
+            bad = [(123, None), (["x"], None), (("import", "os", "getcwd"), None)]
         elif vname == "validate_class":
             if name == "worker_class":
                 vals = [("gthread", cli1("gthread")), ("gevent", cli1("gevent"))]
@@ -151,6 +151,8 @@ def build_families(scratch, config, util):
 
 def materialise(name, spec):
     """python object for a value spec (callables are built fresh so that file and dict sources get equal-looking objects)"""
+    if isinstance(spec, (tuple, list)) and len(spec) == 3 and spec[0] == "import":
+        return getattr(__import__(spec[1]), spec[2])
     if isinstance(spec, (tuple, list)) and len(spec) == 3 and spec[0] == "callable":
         _, tag, arity = spec
         ns = {}
@@ -159,10 +161,23 @@ def materialise(name, spec):
     return spec
 
 
-def file_source_line(name, spec):
+def file_source_line(name, spec, imported=False):
     if isinstance(spec, (tuple, list)) and len(spec) == 3 and spec[0] == "callable":
         _, tag, arity = spec
-        return "def %s_%s(%s):\n    pass\n%s = %s_%s\n" % (name, tag, ", ".join("a%d" % i for i in range(arity)), name, name, tag)
+        src = "def %s_%s(%s):\n    pass\n" % (name, tag, ", ".join("a%d" % i for i in range(arity)))
+        if imported:
+            # the usual "from myhooks import post_fork" style: the function lives in another module
+            g = G()
+            mod = "verif_hooks_%s_%s" % (name, tag)
+            path = os.path.join(g["scratch"], mod + ".py")
+            if not os.path.exists(path):
+                with open(path, "w") as f:
+                    f.write(src)
+            sys.modules.pop(mod, None)
+            return "from %s import %s_%s as %s\n" % (mod, name, tag, name)
+        return src + "%s = %s_%s\n" % (name, name, tag)
+    if isinstance(spec, (tuple, list)) and len(spec) == 3 and spec[0] == "import":
+        return "from %s import %s as %s\n" % (spec[1], spec[2], name)
     return "%s = %r\n" % (name, spec)
 
 
@@ -200,8 +215,8 @@ def load(g, mentions, config_flags=None):
             os.unlink(conf)
         if "file" in mentions:
             with open(conf, "w") as f:
-                for k, v in mentions["file"].items():
-                    f.write(file_source_line(k, v[0]))
+                for i, (k, v) in enumerate(sorted(mentions["file"].items())):
+                    f.write(file_source_line(k, v[0], imported=(len(k) + i) % 2 == 0))
         argv = []
         for k, v in mentions.get("cli", {}).items():
             argv += v[1]
